@@ -234,9 +234,12 @@ def dep_exprs(ex, e):
 def role_rules(chk, F, A, tag):
     coef, helper = find_digit_fns(F)
     digit_fns = {coef.path} | ({helper.path} if helper else set())
+    def calls_digit(f):
+        """f, or a closure defined in f, calls the digit function"""
+        return any(coef.path in F.call_targets(g, t) for g in [f] + [F.fns[c] for c in F._closures.get(f.path, []) if c in F.fns] for _, t in g.calls())
     ck = [f for f in F.fns.values() if f.j.get("impl") and f.j["impl"]["self_ty"].get("path", "").endswith("LmotsParameter")
           and [t["s"] for t in f.j.get("inputs", [])][1:] == ["&[u8]"] and f.j.get("output", {}).get("s") == "u16"
-          and any(coef.path in [tp for tp in F.call_targets(f, t)] for _, t in f.calls())]
+          and calls_digit(f)]
     inlined = None
     if not ck:
         # the checksum computed inside the appending routine itself (helper inlined into its only caller): a method of the
@@ -268,6 +271,12 @@ def role_rules(chk, F, A, tag):
     ex = expr.Expr(F, ck)
     ret = ex.of_local(0, 0) if inlined is None else inlined[1]
     allx = dep_exprs(ex, ret)
+    # the summation may live in a closure handed to fold / map: its body is read closure-transparently (captured variables are
+    # the routine's own, the item parameter is `next(<the iterator>)`)
+    for cpath in F._closures.get(ck.path, []):
+        if cpath in F.fns:
+            cx = expr.Expr(F, F.fns[cpath], closure_env=True)
+            allx = list(allx) + list(dep_exprs(cx, cx.of_local(0, 0)))
     # shifted by ls
     shl = [x for e in allx for x in expr.walk(e) if x[0] == "bin" and x[1] in ("Shl", "Mul") and expr.has_field(x[3], "checksum_left_shift")]
     chk.ob("T3.checksum-shifted-by-ls", ck.key + tag, bool(shl) and ret[0] == "bin" and expr.has_field(ret, "checksum_left_shift"),
